@@ -141,7 +141,11 @@ def judge(v, res, stages, pid):
         mine = (stage in stages) if stages is not None else stage not in ("ood", "coefficients")
         if not mine:
             continue
-        if verdict == "accept":
+        if verdict == "accept" and stage == "commitment":
+            v.violation("vmodel/accepted-without/commitment",
+                        "verify() ACCEPTS a proof although for some opened row (trace segment, composition columns or a FRI layer) the verifier performed no "
+                        "chain of merges from the row's hash to the commitment (MerkleChain.tla): the value is consumed without being tied to a commitment (%s)" % describe(sc), sc)
+        elif verdict == "accept":
             v.violation("vmodel/accepted-without/%s" % stage,
                         "verify() ACCEPTS a proof whose consumed values do not satisfy the protocol's relation '%s' as the specification defines it "
                         "(Trace_Verifier.tla) (%s)" % (stage, describe(sc)), sc)
